@@ -2,6 +2,8 @@ CONSTANTS
   R = 2
   C = 3
   ORD = "all"
+  SAMPLE = 1
+  PSTEP = 1
 INIT Init
 NEXT NextRect
 INVARIANTS TupleInv ZeroCopyInv BuilderInv OrderInv
